@@ -2,7 +2,8 @@
 C15 — response status and length bookkeeping match what was actually sent.
 
 `Resp.run env st calls` is the model of `restful.Response` (response.go, entity_accessors.go) over
-an arbitrary underlying writer `env : Nat → (accepted, failed)` (tied to /repo by the
+an arbitrary underlying writer `env : Nat → (accepted, err)`, `err` the error VALUE it returned (a
+tag, 0 = nil) (tied to /repo by the
 correspondence stream `response`).  `Spec.c15Holds` is the property as a predicate on an observed
 history; the driver evaluates the same predicate on what the real code did.
 
@@ -17,6 +18,14 @@ the FIRST; `C15_discipline_needed_*` exhibit both situations on the model, so th
 `net/http` accepts without panicking) is needed because `StatusCode()` maps a stored 0 to 200
 (`C15_status_zero_witness`).  No deviation of the code from C15 inside its quantifier was found:
 there is no `_partial` theorem in this file.
+
+The error clause is proved with the error's identity (`C15_error_value`): the call in which an
+underlying `Write` failed returns THE value that `Write` returned.  Its quantifier is "the underlying
+writer fails" — as the call's only failure: a value that does not marshal (the marshaller reports an
+error of its own) gives the call a second reason to fail, and then `xml.Encoder.Encode` may return
+its own error although a flush failed first (`C15_own_marshal_error_boundary`, outside the
+quantifier; such a call still returns a non-nil error: `C15_error`).  "Every entity marshals" is the
+decidable condition `Spec.marshalClean` on the call sequence; per call it is `ownErr = false`.
 -/
 import Restful.Lemmas.Response
 import Restful.Lemmas.StateShape
@@ -78,17 +87,48 @@ theorem C15_status_last_set (env : Env) (s : Settings) (calls : List Call) :
   simp only [List.nil_append] at hi
   exact hi.2
 
-/-- The error law.  If the k-th `Write` call of the underlying writer was made and failed, then the
-    high-level call that made it returned an error, that write was the last thing the call did, and
-    `ContentLength()` after the call is exactly what the writer accepted in writes 0..k. -/
+/-- The error law, with the error's identity.  If the k-th `Write` call of the underlying writer was
+    made and failed, then the high-level call that made it returned an error, that write was the
+    last thing the call did, `ContentLength()` after the call is exactly what the writer accepted in
+    writes 0..k, and — when the value handed to the call marshals (`ownErr = false`: the writer's
+    failure is the call's only failure) — the error the call returned is THE error value that `Write`
+    returned, `(env k).err`.  Exactly: the call returns that value, or, only for a value whose
+    marshaller reports an error of its own, that other error. -/
+theorem C15_error_value (env : Env) (s : Settings) (calls : List Call) (k : Nat)
+    (hk : k < (finalState env (State.init s) calls).writes) (hf : (env k).failed = true) :
+    ∃ r ∈ run env (State.init s) calls,
+      r.firstWrite ≤ k ∧ k + 1 = r.firstWrite + Spec.writeCount r.events ∧
+      r.retErr = true ∧ r.length = envAccepted env (k + 1) ∧
+      (r.ownErr = false → r.ret = .writer (env k).err) ∧
+      (r.ret = .writer (env k).err ∨ (r.ownErr = true ∧ r.ret = .other)) := by
+  obtain ⟨r, hr, h1, h2, _, h4, h5, h6⟩ :=
+    run_error env calls (State.init s) k (by simp [State.init, envAccepted]) (by simp [State.init]) hk hf
+  refine ⟨r, hr, h1, h2, h4, h5, ?_, h6⟩
+  intro ho
+  rcases h6 with h | h
+  · exact h
+  · rw [ho] at h; exact absurd h.1 (by simp)
+
+/-- the same under the condition on the whole sequence: every entity marshals (`Spec.marshalClean`,
+    decidable, independent of the writer) — then every failing `Write` surfaces as itself -/
+theorem C15_error_value_clean (env : Env) (s : Settings) (calls : List Call) (k : Nat)
+    (hm : Spec.marshalClean s calls = true)
+    (hk : k < (finalState env (State.init s) calls).writes) (hf : (env k).failed = true) :
+    ∃ r ∈ run env (State.init s) calls,
+      r.firstWrite ≤ k ∧ k + 1 = r.firstWrite + Spec.writeCount r.events ∧
+      r.ret = .writer (env k).err ∧ r.length = envAccepted env (k + 1) := by
+  obtain ⟨r, hr, h1, h2, _, h4, h5, _⟩ := C15_error_value env s calls k hk hf
+  exact ⟨r, hr, h1, h2, h5 (run_ownErr_clean env calls (State.init s) hm r hr), h4⟩
+
+/-- The error law as it was stated before (a corollary): the call returned a non-nil error — this
+    half needs no condition on the values. -/
 theorem C15_error (env : Env) (s : Settings) (calls : List Call) (k : Nat)
     (hk : k < (finalState env (State.init s) calls).writes) (hf : (env k).failed = true) :
     ∃ r ∈ run env (State.init s) calls,
       r.firstWrite ≤ k ∧ k + 1 = r.firstWrite + Spec.writeCount r.events ∧
       r.retErr = true ∧ r.length = envAccepted env (k + 1) := by
-  obtain ⟨r, hr, h1, h2, _, h4, h5⟩ :=
-    run_error env calls (State.init s) k (by simp [State.init, envAccepted]) (by simp [State.init]) hk hf
-  exact ⟨r, hr, h1, h2, h4, h5⟩
+  obtain ⟨r, hr, h1, h2, h3, h4, _⟩ := C15_error_value env s calls k hk hf
+  exact ⟨r, hr, h1, h2, h3, h4⟩
 
 /-- The same per call, on the events: a failed write is the last event of its call and makes the
     call return an error. -/
@@ -98,6 +138,26 @@ theorem C15_error_events (env : Env) (s : Settings) (calls : List Call) :
   run_error_events env calls (State.init s)
 
 /-! ### why the hypotheses are there (these are not deviations: the property excludes them) -/
+
+/-- **Boundary example — outside the quantifier.**  A value that does not marshal: `xml.Encoder`
+    fills its 4096-byte buffer, the flush is triggered while it writes the start tag of a field no
+    marshaller supports, the `Write` fails (error value 7), `Encode` goes on, runs into the
+    unsupported field and returns ITS error (`encXmlMasked = [true]`; in the harness:
+    `BadTail{Pad: text(2389)}`, replayed on the real code).  The call returns a non-nil error that
+    is not the writer's.  This is `encoding/xml`'s choice between two errors of one call, not a
+    deviation of the Response: `Spec.c15Holds` holds of the history (`ownErr`), and with a value
+    that marshals the same failing write surfaces as itself. -/
+theorem C15_own_marshal_error_boundary :
+    let bad : Marshalled := { encXml := [4096], encXmlFails := true, encXmlMasked := [true] }
+    let good : Marshalled := { encXml := [4096] }
+    let env := Env.ofList [⟨0, 7⟩]
+    let st := State.init { prettyPrint := false }
+    Spec.marshalClean { prettyPrint := false } [Call.writeAsXml bad] = false ∧
+      run env st [Call.writeAsXml bad] = [⟨[.header 200, .write 4096 0 7], 200, 0, .other, false, 0, true⟩] ∧
+      Spec.c15Holds (Spec.modelHistory false env { prettyPrint := false } [Call.writeAsXml bad]) = true ∧
+      Spec.marshalClean { prettyPrint := false } [Call.writeAsXml good] = true ∧
+      run env st [Call.writeAsXml good] = [⟨[.header 200, .write 4096 0 7], 200, 0, .writer 7, false, 0, false⟩] := by
+  decide
 
 /-- status set twice: the code reports the last one, a `net/http`-like writer sent the first -/
 theorem C15_discipline_needed_twice :
@@ -111,7 +171,7 @@ theorem C15_discipline_needed_twice :
 /-- status set after a body byte: the code reports it, the writer had already sent 200 -/
 theorem C15_discipline_needed_order :
     let calls := [Call.write 3, Call.writeErrorString 500 7]
-    let env := Env.ofList [⟨3, false⟩, ⟨7, false⟩]
+    let env := Env.ofList [⟨3, 0⟩, ⟨7, 0⟩]
     Spec.disciplinedCalls {} calls = false ∧
       (finalState env (State.init {}) calls).StatusCode = 500 ∧
       Spec.effectiveStatus (eventsOf env (State.init {}) calls) = 200 := by
@@ -134,13 +194,13 @@ theorem C15_status_zero_witness :
 example :
     let v : Marshalled := { prettyJson := some 100, prettyXml := some 120, encJson := [91], encXml := [4096, 37] }
     let calls := [Call.setAccept .xml, Call.writeHeaderAndEntity 201 v, Call.write 50, Call.prettyPrint false]
-    let env := Env.ofList [⟨39, false⟩, ⟨70, true⟩, ⟨50, false⟩]
-    Spec.disciplinedCalls {} calls = true ∧
+    let env := Env.ofList [⟨39, 0⟩, ⟨70, 5⟩, ⟨50, 0⟩]
+    Spec.disciplinedCalls {} calls = true ∧ Spec.marshalClean {} calls = true ∧
       run env (State.init {}) calls =
-        [⟨[], 200, 0, false, false, 0⟩,
-         ⟨[.header 201, .write 39 39 false, .write 120 70 true], 201, 109, true, false, 0⟩,
-         ⟨[.write 50 50 false], 201, 159, false, false, 2⟩,
-         ⟨[], 201, 159, false, false, 3⟩] ∧
+        [⟨[], 200, 0, .nil, false, 0, false⟩,
+         ⟨[.header 201, .write 39 39 0, .write 120 70 5], 201, 109, .writer 5, false, 0, false⟩,
+         ⟨[.write 50 50 0], 201, 159, .nil, false, 2, false⟩,
+         ⟨[], 201, 159, .nil, false, 3, false⟩] ∧
       Spec.c15Holds (Spec.modelHistory false env {} calls) = true := by
   decide
 
@@ -148,20 +208,26 @@ example :
     a body-only sequence keeps 200 -/
 example :
     let v : Marshalled := { encXml := [4096, 10], encXmlFails := true }
-    run (Env.ofList [⟨4096, false⟩, ⟨10, false⟩]) (State.init { prettyPrint := false }) [Call.writeAsXml v] =
-        [⟨[.header 200, .write 4096 4096 false, .write 10 10 false], 200, 4106, true, false, 0⟩] ∧
-      run (Env.ofList []) (State.init {}) [Call.writeEntity { prettyJson := some 5 }] = [⟨[.header 406], 406, 0, false, false, 0⟩] ∧
+    run (Env.ofList [⟨4096, 0⟩, ⟨10, 0⟩]) (State.init { prettyPrint := false }) [Call.writeAsXml v] =
+        [⟨[.header 200, .write 4096 4096 0, .write 10 10 0], 200, 4106, .other, false, 0, true⟩] ∧
+      run (Env.ofList []) (State.init {}) [Call.writeEntity { prettyJson := some 5 }] = [⟨[.header 406], 406, 0, .nil, false, 0, false⟩] ∧
       Spec.disciplinedCalls {} [Call.write 1, Call.write 0, Call.write 2] = true ∧
-      (finalState (Env.ofList [⟨1, false⟩, ⟨0, false⟩, ⟨1, true⟩]) (State.init {}) [Call.write 1, Call.write 0, Call.write 2]).ContentLength = 2 := by
+      (finalState (Env.ofList [⟨1, 0⟩, ⟨0, 0⟩, ⟨1, 9⟩]) (State.init {}) [Call.write 1, Call.write 0, Call.write 2]).ContentLength = 2 := by
   decide
 
 /-- the predicate is not trivially true: it rejects a history whose length counts offered instead
-    of accepted bytes, one whose status was not recorded, and one whose failing call returned nil -/
+    of accepted bytes, one whose status was not recorded, one whose failing call returned nil, one
+    whose failing call returned an error that is not the writer's (another `Write`'s, or one made
+    elsewhere) although its value marshals — and accepts that history with the writer's own error -/
 example :
-    Spec.c15Holds ⟨false, [⟨[.header 200, .write 10 4 true], 200, 10, true⟩], none⟩ = false ∧
-    Spec.c15Holds ⟨false, [⟨[.header 500, .write 3 3 false], 200, 3, false⟩], none⟩ = false ∧
-    Spec.c15Holds ⟨false, [⟨[.header 200, .write 10 4 true], 200, 4, false⟩], none⟩ = false ∧
-    Spec.c15Holds ⟨true, [⟨[.header 200, .write 10 10 false], 200, 10, false⟩], some (200, 9)⟩ = false := by
+    Spec.c15Holds ⟨false, [⟨[.header 200, .write 10 4 3], 200, 10, .writer 3, false⟩], none⟩ = false ∧
+    Spec.c15Holds ⟨false, [⟨[.header 500, .write 3 3 0], 200, 3, .nil, false⟩], none⟩ = false ∧
+    Spec.c15Holds ⟨false, [⟨[.header 200, .write 10 4 3], 200, 4, .nil, false⟩], none⟩ = false ∧
+    Spec.c15Holds ⟨false, [⟨[.header 200, .write 10 4 3], 200, 4, .writer 2, false⟩], none⟩ = false ∧
+    Spec.c15Holds ⟨false, [⟨[.header 200, .write 10 4 3], 200, 4, .other, false⟩], none⟩ = false ∧
+    Spec.c15Holds ⟨false, [⟨[.header 200, .write 10 4 3], 200, 4, .writer 3, false⟩], none⟩ = true ∧
+    Spec.c15Holds ⟨false, [⟨[.header 200, .write 10 4 3], 200, 4, .other, true⟩], none⟩ = true ∧
+    Spec.c15Holds ⟨true, [⟨[.header 200, .write 10 10 0], 200, 10, .nil, false⟩], some (200, 9)⟩ = false := by
   decide
 
 /-! ### non-vacuity (audit): `C15_bookkeeping` and `C15_error` themselves on the history of the first
@@ -170,7 +236,7 @@ namespace C15Example
 
 def v : Marshalled := { prettyJson := some 100, prettyXml := some 120, encJson := [91], encXml := [4096, 37] }
 def calls : List Call := [Call.setAccept .xml, Call.writeHeaderAndEntity 201 v, Call.write 50, Call.prettyPrint false]
-def env : Env := Env.ofList [⟨39, false⟩, ⟨70, true⟩, ⟨50, false⟩]
+def env : Env := Env.ofList [⟨39, 0⟩, ⟨70, 5⟩, ⟨50, 0⟩]
 
 /-- `C15_bookkeeping`: its hypothesis holds, and the three quantities it equates are 201 / 159 here -/
 example := C15_bookkeeping env {} calls (by decide)
@@ -183,6 +249,11 @@ example : (finalState env (State.init {}) calls).StatusCode = 201 ∧ (finalStat
     returned an error with length 39 + 70 -/
 example : (1 < (finalState env (State.init {}) calls).writes) ∧ (env 1).failed = true ∧ envAccepted env 2 = 109 := by decide
 example := C15_error env {} calls 1 (by decide) (by decide)
+/-- `C15_error_value` / `C15_error_value_clean` at k = 1 (every entity of the sequence marshals): the
+    call returned the error value 5 the second `Write` returned -/
+example := C15_error_value env {} calls 1 (by decide) (by decide)
+example := C15_error_value_clean env {} calls 1 (by decide) (by decide) (by decide)
+example : (env 1).err = 5 ∧ ((run env (State.init {}) calls)[1]?.map (·.ret)) = some (.writer 5) := by decide
 example := C15_error_events env {} calls
 
 /-- `C15` on that history, without and with a content coding underneath -/
